@@ -346,6 +346,11 @@ func c15Case(c *fw.Case, targeted bool) {
 			c.Failf("response-verification-fails-after-buffer-reuse/"+fam, "the response authenticator decoded from a receive buffer reads %s once the buffer holds the next frame (sent %s)\n%s", hx([]byte(held)), hx(wantResp), ctx)
 		}
 	}
+	c.Echo("authenticator generators/"+fam, func() string {
+		a := cmpp.GenConnectAuth(cr.account, cr.secret, cmpp.TimeStamp2Str(cr.ts))
+		b, _ := smgp30.VerifGenAuthenticatorClient(cr.account, cr.secret, cr.ts)
+		return hx(a) + " " + hx(b) + " " + cmpp.TimeStamp2Str(cr.ts)
+	})
 	c.Cover(fmt.Sprintf("%s/%s/req-%s/resp-%s/acct%d", c.Stage.Name, fam, nulClass(want), nulClass(wantResp), len(cr.account)))
 	c.Sample(2, map[string]any{"family": fam, "account": cr.account, "secret": hx([]byte(cr.secret)), "timestamp": cr.ts, "status": cr.status, "request_digest": hx(want), "response_digest": hx(wantResp)})
 }
